@@ -29,6 +29,10 @@ pub struct Outcome<A> {
     pub facts: u64,
     /// Implementation-coverage facts (informational).
     pub impl_facts: u64,
+    /// Secondary digest of state that is not supposed to matter (e.g. dead bytes of a buffer).
+    /// States that agree on `key` but differ here are kept apart, but only up to
+    /// `Limits::max_variants` of them per `key` (bounded diversification).
+    pub aux: u64,
 }
 
 pub trait System {
@@ -59,6 +63,7 @@ pub struct Limits {
     pub max_depth: usize,
     pub max_violations: usize,
     pub item_timeout_s: u32,
+    pub max_variants: u8,
 }
 
 impl Default for Limits {
@@ -69,6 +74,7 @@ impl Default for Limits {
             max_depth: usize::MAX,
             max_violations: 3,
             item_timeout_s: 30,
+            max_variants: 4,
         }
     }
 }
@@ -120,6 +126,7 @@ struct Node {
 struct Rec {
     item: u32,
     key: u128,
+    base: u128,
     obs: u64,
     facts: u64,
     impl_facts: u64,
@@ -139,6 +146,7 @@ fn put_u64(v: &mut Vec<u8>, x: u64) {
 fn encode(r: &Rec, out: &mut Vec<u8>) {
     put_u32(out, r.item);
     out.extend_from_slice(&r.key.to_le_bytes());
+    out.extend_from_slice(&r.base.to_le_bytes());
     put_u64(out, r.obs);
     put_u64(out, r.facts);
     put_u64(out, r.impl_facts);
@@ -172,13 +180,15 @@ fn decode_all(buf: &[u8]) -> Vec<Rec> {
     };
     while p < buf.len() {
         // A worker that died mid-record leaves a truncated tail: ignore it (the item is re-run).
-        let need_fixed = 4 + 16 + 8 + 8 + 8 + 1 + 4;
+        let need_fixed = 4 + 16 + 16 + 8 + 8 + 8 + 1 + 4;
         if buf.len() - p < need_fixed {
             break;
         }
         let start = p;
         let item = rd32(&mut p);
         let key = u128::from_le_bytes(buf[p..p + 16].try_into().unwrap());
+        p += 16;
+        let base = u128::from_le_bytes(buf[p..p + 16].try_into().unwrap());
         p += 16;
         let obs = rd64(&mut p);
         let facts = rd64(&mut p);
@@ -212,6 +222,7 @@ fn decode_all(buf: &[u8]) -> Vec<Rec> {
         recs.push(Rec {
             item,
             key,
+            base,
             obs,
             facts,
             impl_facts,
@@ -245,9 +256,11 @@ fn run_item<S: System>(sys: &S, item: u32, path: &[S::A]) -> Rec {
             v.detail = format!("NONDETERMINISTIC REPLAY: {}", v.detail);
         }
     }
+    let full = if o.aux == 0 { o.key } else { util::hash128(&[&o.key.to_le_bytes(), &o.aux.to_le_bytes()]) };
     Rec {
         item,
-        key: o.key,
+        key: full,
+        base: o.key,
         obs: o.obs,
         facts: o.facts,
         impl_facts: o.impl_facts,
@@ -303,7 +316,14 @@ fn exec_batch<S: System>(
     let k = workers.min(n / 24 + 1).min(n.max(1));
     // pending[w] = item indices assigned to worker w that still have to be executed
     let mut pending: Vec<Vec<usize>> = (0..k).map(|w| (w..n).step_by(k).collect()).collect();
+    let mut deaths = 0u32;
     loop {
+        if deaths >= 3 {
+            // the subject keeps killing or hanging workers: violations are recorded; give up on
+            // the rest of this batch (reported through `gave_up`)
+            errors.push("GAVE-UP".into());
+            break;
+        }
         let active: Vec<usize> = (0..k).filter(|w| !pending[*w].is_empty()).collect();
         if active.is_empty() {
             break;
@@ -404,10 +424,12 @@ fn exec_batch<S: System>(
                 } else {
                     format!("worker exited with status {}", exit_code)
                 };
+                deaths += 1;
                 let path = path_of(culprit);
                 out[culprit] = Some(Rec {
                     item: culprit as u32,
                     key: util::hash128(&[b"abort", &(culprit as u64).to_le_bytes()]),
+                    base: util::hash128(&[b"abort", &(culprit as u64).to_le_bytes()]),
                     obs: 0,
                     facts: 0,
                     impl_facts: 0,
@@ -444,6 +466,7 @@ pub fn bfs<S: System>(sys: &S, limits: &Limits, workers: usize) -> Stats {
     let mut nodes: Vec<Node> = vec![];
     let mut node_keys: Vec<u128> = vec![];
     let mut seen: KeyMap = KeyMap::default();
+    let mut variants: HashMap<u128, u8, BuildHasherDefault<IdHasher>> = Default::default();
     let mut obs_seen: std::collections::HashSet<u64> = Default::default();
     let path_of_node = |nodes: &Vec<Node>, mut n: u32| -> Vec<u64> {
         let mut p = vec![];
@@ -495,11 +518,19 @@ pub fn bfs<S: System>(sys: &S, limits: &Limits, workers: usize) -> Stats {
                 p
             };
             let recs = exec_batch(sys, part.len(), &path_of, workers, limits.item_timeout_s, &mut st.machinery_errors, Some(&seen));
+            let gave_up = st.machinery_errors.iter().any(|e| e == "GAVE-UP");
+            st.machinery_errors.retain(|e| e != "GAVE-UP");
+            if gave_up {
+                st.cap_hit = Some("exploration cut short: the subject repeatedly killed or hung worker processes".into());
+                stop = true;
+            }
             for (i, r) in recs.into_iter().enumerate() {
                 let r = match r {
                     Some(r) => r,
                     None => {
-                        st.machinery_errors.push(format!("item {} produced no record", i));
+                        if !gave_up {
+                            st.machinery_errors.push(format!("item {} produced no record", i));
+                        }
                         continue;
                     }
                 };
@@ -532,6 +563,13 @@ pub fn bfs<S: System>(sys: &S, limits: &Limits, workers: usize) -> Stats {
                 }
                 if seen.contains_key(&r.key) {
                     continue;
+                }
+                if r.key != r.base {
+                    let v = variants.entry(r.base).or_insert(0);
+                    if *v >= limits.max_variants {
+                        continue; // enough representatives of this state with different dead data
+                    }
+                    *v += 1;
                 }
                 let id = nodes.len() as u32;
                 seen.insert(r.key, id);
